@@ -238,19 +238,31 @@ def l3_const_fn(chk, ctx, rng, n):
                 kw = dict(nu1=nus[0], nu2=nus[1], nu3=nus[2], m12=m[0, 1], m13=m[0, 2], m21=m[1, 0], m23=m[1, 2], m31=m[2, 0], m32=m[2, 1],
                           gamma1=gam[0], gamma2=gam[1], gamma3=gam[2], h1=hs[0], h2=hs[1], h3=hs[2], theta0=th)
                 f = I.three_pops
+            # the integration may start at a non-zero initial_t (both drivers must integrate for T - initial_t)
+            if rng.random() < 0.5:
+                kw['initial_t'] = float(rng.uniform(0.2, 0.8)) * T
             inp = dict(d=d, pts=pts, T=T, kw=kw, use_delj_trick=use, phi=phi)
-            chk.l3(('constfn', d, use))
+            chk.l3(('constfn', d, use, 'initial_t' in kw))
             key = 'constfn:%dD:delj=%s' % (d, use)
             try:
                 r_const = f(phi.copy(), xx, T, **kw)
             except Exception as e:
                 chk.fail(key + ':const-raises:' + type(e).__name__, 'constant-parameter driver raises %r (use_delj_trick=%s)' % (e, use), inp); continue
-            name0 = sorted(kw)[int(rng.integers(len(kw)))]
+            name0 = sorted(k_ for k_ in kw if k_ != 'initial_t')[int(rng.integers(len(kw) - ('initial_t' in kw)))]
             kwf = dict(kw); v0 = kw[name0]; kwf[name0] = (lambda t, v=v0: v)
             try:
                 r_fn = f(phi.copy(), xx, T, **kwf)
             except Exception as e:
                 chk.fail(key + ':fn-raises:' + type(e).__name__, 'time-function driver raises %r' % (e,), inp); continue
+            if 'initial_t' in kw:
+                kw0 = {k_: v_ for k_, v_ in kw.items() if k_ != 'initial_t'}
+                try:
+                    r_shift = f(phi.copy(), xx, T - kw['initial_t'], **kw0)
+                    ok0, err0, scale0 = close(r_const, r_shift, rtol=1e-9 if not use else 1e-6)
+                    if not ok0:
+                        chk.fail(key + ':initial_t', 'constant parameters: integrating from initial_t=%.4g to T=%.4g differs from integrating for T - initial_t from 0 by %.3g (scale %.3g)' % (kw['initial_t'], T, err0, scale0), inp)
+                except Exception as e:
+                    chk.fail(key + ':initial_t:raises:' + type(e).__name__, 'driver raises %r' % (e,), inp)
             ok, err, scale = close(r_fn, r_const, rtol=1e-9 if not use else 1e-6)
             if not ok:
                 chk.fail(key + ':differ', 'const vs function-of-time parameter (%s) differ by %.3g (scale %.3g)' % (name0, err, scale), inp)
